@@ -16,7 +16,7 @@ contract(
     params={"tag": P.str(**IDENT), "tag_info": P.const("{'instance_id': 5}"), "use_instance_ids": P.bool()},
     ref="spec.abstract.bytes_of(pycomm3.packets.util.tag_request_path, tag, tag_info, use_instance_ids)",
     callsite_ensures=["len(result) >= 5", "len(result) <= 2 * len(tag) + 8", "len(result) % 2 == 1"],
-    assumed=True, props=["C04", "C01", "C02", "C03"],
+    assumed=True, callsite=True, props=["C04", "C01", "C02", "C03"],
     note="content abstracted (proved in C09 by the tag_request_path.* contracts); the length bounds are re-proved there for the same shapes")
 
 
